@@ -1472,7 +1472,7 @@ namespace bluetoe {
         if ( !check_handle( input, in_size, output, out_size, handle, index ) )
             return;
 
-        auto write = details::attribute_access_arguments::check_write( this );
+        auto write = details::attribute_access_arguments::check_write( client.client_configurations(), client.security_attributes(), this );
         auto rc    = attribute_at( index ).access( write, index );
 
         if ( rc != details::attribute_access_result::success )
